@@ -5,7 +5,10 @@
 //  1. TLC explores the skeleton model (spec/rhp/Contracts.tla): sequences of constructor calls
 //     New, Append, Free, Roots, Fund, Replenish, Renew, RefreshPartial, RefreshFull, each with a
 //     funding class (ample / exact / short by one hasting). It emits every skeleton of at most
-//     2 (thorough: 3) operations and a seeded sample of skeletons of up to 6 operations.
+//     2 (thorough: 3) operations, every 6-operation skeleton of the size / capacity focus (formation,
+//     then appends of 1..3 (thorough 1..4) sectors, frees and refreshes in every order: all ways of
+//     re-appending fewer / as many / more sectors than were freed) and a seeded sample of skeletons of
+//     up to 6 operations.
 //  2. Every skeleton is executed on the real rhp/v4 constructors: price tables and parameters are
 //     drawn stratified by magnitude, the real Validate methods must pass, boundary balances are
 //     arranged from the real cost functions, the result is signed and submitted to the real
@@ -159,6 +162,16 @@ func v1Line(env *v1env, seed int64, i int) ev {
 	return env.line(r, i%5)
 }
 
+// sortSkeletons: TLC's workers print in no fixed order; sort, so that a seed always yields the same run.
+func sortSkeletons(sk [][]skOp) {
+	keys := make(map[*skOp]string, len(sk))
+	for i := range sk {
+		b, _ := json.Marshal(sk[i])
+		keys[&sk[i][0]] = string(b)
+	}
+	sort.Slice(sk, func(i, j int) bool { return keys[&sk[i][0]] < keys[&sk[j][0]] })
+}
+
 func chunkSeqs(runs []*seqRun, events *[]ev, chunks *[][2]int, startOfSeq map[int]int) {
 	const minLines = 48
 	from := len(*events) + 1
@@ -224,7 +237,7 @@ func main() {
 		replay(c)
 		return
 	}
-	c.Rule("TLC emits skeletons (constructor kind x arguments x funding class sequences starting from New): all of length <= 2 (thorough 3) plus two seeded -simulate samples of length <= 6 (all variants; data operations favoured), de-duplicated. Each is executed once on the real rhp/v4 constructors with magnitude-stratified prices/parameters that pass the real Validate methods, boundary balances arranged from the real cost functions. One evaluation = one trace line: a constructor call with its cost functions and its submission(s) to the real ValidateV2Transaction, or one probe (an accepted result altered in one field and submitted), or one rhp/v2-v3 / allowance-limit line. Non-trivial = a line of a distinct skeleton (requests passed the real Validate) or a distinct independent line, validated by TLC without rejection.")
+	c.Rule("TLC emits skeletons (constructor kind x arguments x funding class sequences starting from New): all of length <= 2 (thorough 3), all of length 6 of the size/capacity focus (amply funded appends of 1..3 (thorough 1..4) sectors, frees of 1..filesize sectors, refreshes of contracts with free capacity, up to 6 (thorough 8) sectors stored), plus two seeded -simulate samples of length <= 6 (all variants; data operations favoured), de-duplicated. Each is executed once on the real rhp/v4 constructors with magnitude-stratified prices/parameters that pass the real Validate methods, boundary balances arranged from the real cost functions. One evaluation = one trace line: a constructor call with its cost functions and its submission(s) to the real ValidateV2Transaction, or one probe (an accepted result altered in one field and submitted), or one rhp/v2-v3 / allowance-limit line. Non-trivial = a line of a distinct skeleton (requests passed the real Validate) or a distinct independent line, validated by TLC without rejection.")
 	c.Assume("BigNat (cross-checked against TLC integers by spec/lib/BigNatTest in C15) is the arithmetic oracle")
 	c.Assume("signatures, element proofs and key continuity are produced honestly by the harness (real signing code, real accumulator); the transcribed consensus rules cover amounts, sizes, heights and revision numbers")
 	c.Assume("magnitudes: prices < 2^70, allowances/collateral < 2^110, sector batches <= 3*2^15, durations < 2^17 blocks: no Currency overflow inside the constructors or Validate (overflow there panics by design of types.Currency)")
@@ -258,13 +271,31 @@ func main() {
 	if err != nil {
 		c.Fatal("%v", err)
 	}
-	// TLC's workers print in no fixed order: sort, so that a seed always yields the same run
-	sort.Slice(skeletons, func(i, j int) bool {
-		a, _ := json.Marshal(skeletons[i])
-		b, _ := json.Marshal(skeletons[j])
-		return string(a) < string(b)
-	})
+	sortSkeletons(skeletons)
 	nEnum := len(skeletons)
+	// 2b. size / capacity focus: every order of appends, frees and refreshes (exhaustive, full length only)
+	sizesCfg := "ContractsEnumSizes.cfg"
+	if c.Thorough {
+		sizesCfg = "ContractsEnumSizesT.cfg"
+	}
+	ez := c.MustTLC(vlib.TLCOpts{SpecDirs: []string{specDir}, Module: "Contracts", Config: sizesCfg, Workers: 4})
+	sizeSk, err := parseSkeletons(ez.Lines, seen)
+	if err != nil {
+		c.Fatal("%v", err)
+	}
+	sortSkeletons(sizeSk)
+	// model side of the vacuity guard: skeletons in which sectors are freed and fewer are appended again
+	modelSmaller := 0
+	for _, sk := range sizeSk {
+		for _, op := range sk {
+			if op.K == "append" && op.OK && op.Sz0 != nil && op.Cap0 != nil && op.A < *op.Cap0-*op.Sz0 {
+				modelSmaller++
+				break
+			}
+		}
+	}
+	skeletons = append(skeletons, sizeSk...)
+	nSizes := len(sizeSk)
 	nSim := c.Pick(2000, 45000)
 	if v := os.Getenv("C17_SIM"); v != "" { // development aid
 		nSim, _ = strconv.Atoi(v)
@@ -290,6 +321,11 @@ func main() {
 	}
 	skeletons = append(skeletons, simSk...)
 	c.Cov("skeletons_enumerated", nEnum)
+	c.Cov("skeletons_size_focus", nSizes)
+	c.Cov("skeletons_size_focus_with_append_smaller_than_free_space", modelSmaller)
+	if nSizes < 1000 || modelSmaller < nSizes/10 {
+		c.Fatal("vacuity: %d skeletons of the size focus, %d of them append fewer sectors than are free", nSizes, modelSmaller)
+	}
 	c.Cov("skeletons_simulated_distinct", len(simSk))
 	if nEnum < 100 || len(simSk) < nSim/2 {
 		c.Fatal("vacuity: only %d enumerated and %d simulated skeletons", nEnum, len(simSk))
@@ -451,6 +487,8 @@ func main() {
 	c.Cov("classes", st.classes)
 	c.Cov("rollover_branches", st.branches)
 	c.Cov("boundaries", st.boundsSeen)
+	c.Cov("successful_appends_vs_free_capacity", st.appendVsFree)
+	c.Cov("operations_on_contract_sizes_expected_by_model", st.sizeChecks)
 	c.Cov("revisions_ok", st.okRev)
 	c.Cov("revisions_clean_error", st.errRev)
 	c.Cov("drain_revisions", st.drains)
@@ -504,6 +542,19 @@ func main() {
 			if st.branches[b] == 0 {
 				c.Infra("vacuity: rollover branch %s never taken", b)
 			}
+		}
+		// capacity bookkeeping: sectors freed and then fewer / as many / more appended again, each revision
+		// accepted by the real consensus code as a revision of the previous one
+		for _, k := range []string{"no-free-space", "smaller", "equal", "larger"} {
+			if st.appendVsFree[k] < 5*minOps {
+				c.Infra("vacuity: only %d accepted appends of class %q (appended sectors vs free capacity), want >= %d", st.appendVsFree[k], k, 5*minOps)
+			}
+		}
+		if st.appendVsFree["smaller"] < modelSmaller {
+			c.Infra("vacuity: the model has %d size-focus skeletons that append fewer sectors than are free, only %d such appends were accepted", modelSmaller, st.appendVsFree["smaller"])
+		}
+		if st.sizeChecks < 3*nSizes {
+			c.Infra("vacuity: only %d operations were checked against the model's sectors stored / of capacity", st.sizeChecks)
 		}
 		if st.okRev < minOps || st.errRev < minOps {
 			c.Infra("vacuity: %d successful and %d cleanly failing revisions", st.okRev, st.errRev)
